@@ -302,6 +302,33 @@ def run_cli(argv, cwd, scratch, tz="UTC", timeout=10, config=None, as_nobody=Fal
         return {"status": None, "out": e.stdout or b"", "err": e.stderr or b"", "timed_out": True}
 
 
+_CLOCK_SHIM = [False]
+
+
+def clock_shim():
+    """path of an LD_PRELOAD library that fixes the wall clock at FAKE_EPOCH (seconds), or None if it cannot be built.
+    Built from tools/clockshim.c into .cache on first use."""
+    if _CLOCK_SHIM[0] is False:
+        so = os.path.join(CACHE, "clockshim.so")
+        src = os.path.join(os.path.dirname(os.path.abspath(__file__)), "clockshim.c")
+        ok = os.path.exists(so) and os.path.getmtime(so) >= os.path.getmtime(src)
+        if not ok:
+            for cc in ("gcc", "cc", "clang"):
+                try:
+                    if subprocess.run([cc, "-shared", "-fPIC", "-O1", "-o", so, src], stdout=subprocess.DEVNULL, stderr=subprocess.DEVNULL).returncode == 0:
+                        ok = True
+                        break
+                except OSError:
+                    pass
+        _CLOCK_SHIM[0] = so if ok else None
+    return _CLOCK_SHIM[0]
+
+
+def fake_clock_env(epoch):
+    so = clock_shim()
+    return None if so is None else {"LD_PRELOAD": so, "FAKE_EPOCH": str(int(epoch))}
+
+
 def panicked(r):
     return r["status"] == 101 or b"panicked at" in r["err"]
 
